@@ -2,11 +2,12 @@
 """Engine `asyncio` -- decides property C17 (Async adapter: byte-exact I/O, tasks always woken, blocking mode restored).
 
 1. TLC checks spec/AsyncIo.tla exhaustively (MCAsyncIo.tla + spec/mc/asyncio_q*.cfg; thorough: asyncio_t*.cfg): a socket
-   pair with byte FIFOs of capacity B, the loop's epoll table (one-shot entries), the adapter of io.rs (ONE interest, ONE
-   waker slot, last_readiness), tasks whose scripts -- every sequence of read(n)/write(n)/readable()/writable() with chunk
-   sizes 1..3 -- are chosen on the fly, the executor, dispatches whose batch comes in any order, the peer acting even in
-   the middle of a dispatch, adapt_io / drop / into_inner / second adapt_io / adapt_io of a regular file, fds blocking or
-   non-blocking beforehand.  Invariants Inv_C17_Exact / NeverStuck / Woken / Blocking / Released.
+   pair with byte FIFOs of capacity B, the loop's epoll table (one-shot entries), the adapter of io.rs (a waker per
+   direction, interest = the awaited directions, last_readiness), tasks whose scripts -- every sequence of
+   read(n)/write(n)/readable()/writable() with chunk sizes 1..3 -- are chosen on the fly, the executor, dispatches whose
+   batch comes in any order, the peer acting even in the middle of a dispatch, adapt_io / drop / into_inner / second
+   adapt_io / adapt_io of a regular file / adapt_io of an fd whose adapter is alive, fds blocking or non-blocking
+   beforehand.  Invariants Inv_C17_Exact / NeverStuck / Woken / Blocking / Released.
    Topologies: solo (one task, one adapter, external peer), two (one adapter per socket end, as in the crate's tests),
    split (a reader task and a writer task on ONE adapter: futures' split(), Rc<RefCell>) and join (ONE task polling a
    read and a write on one adapter).  Liveness under weak fairness of the loop thread (mc/asyncio_live*.cfg):
@@ -781,7 +782,7 @@ SELFTEST = [
     ("C17 real crate: two futures pending on ONE adapter (split / join: the scenarios that hung or span before 0061559) run clean, every task ends",
      _st_shared_pass),
 ] + [("C17 model: variant cfg %s -> TLC reports %s violated" % (c, " or ".join(_tup(w))), _st_cfg(c, w)) for c, w in VARIANT_CFGS.items()] \
-  + [("C17 model (temporal): %s -> %s" % (c, "holds" if w is None else w + " violated (busy loop of the old code)"), _st_live(c, w))
+  + [("C17 model (temporal): %s -> %s" % (c, "holds" if w is None else w + " violated (busy loop)"), _st_live(c, w))
      for c, w in LIVE_CFGS.items()] \
   + [("C17 model: %s (two futures on one adapter, code as it is) -> no invariant violated" % c, _st_cfg(c, None)) for c in ("asyncio_q_split", "asyncio_q_join")]
 
